@@ -108,9 +108,56 @@ static Verdict run_c11(const Case &c)
     labels.insert(labels.begin(), "the authentic file itself");
     v.classes.push_back("authentic_file_first_in_the_same_process");
   }
+  // ... and the authentic file once more at the END of the batch: whatever the refused inputs before it leave behind
+  // in the process must not keep it from being handled cleanly
+  bool tail_auth = kind != "file" && kind != "raw" && !base.empty() && c.get("keykind", "right") == "right" && files.size() >= 2;
+  if (tail_auth)
+  {
+    files.push_back(base);
+    labels.push_back("the authentic file again, after the other inputs");
+  }
   v.classes.push_back("kind=" + kind);
   v.weight = files.size();
-  std::vector<DV> res = batch_dv(files, {key}, T, chunk, (int)c.geti("refill", 0));
+  std::string batch_only;
+  std::vector<DV> res = batch_dv(files, {key}, T, chunk, (int)c.geti("refill", 0), &batch_only);
+  bool watchdog = batch_only.find("watchdog") != std::string::npos; // a wall-clock timeout of the batch child is not a verdict
+  if (kind == "file" && !warm.empty() && !batch_only.empty() && !watchdog)
+  {
+    // replay of a pair found below: `warm` goes first, then the file; each is handled cleanly alone, the pair is not
+    Verdict fl = Verdict::fail("verify/decrypt of the second input do not terminate normally (" + batch_only + ") when the same process has handled the first input before it; each of the two is handled cleanly alone [" + std::to_string(files.back().size()) + "-byte input after a " + std::to_string(warm.size()) + "-byte input, T=" + std::to_string(T) + "]");
+    fl.nontrivial = true;
+    fl.classes = v.classes;
+    return fl;
+  }
+  if (tail_auth && !batch_only.empty() && !watchdog)
+  {
+    // every input is handled cleanly alone, the sequence is not: look for a pair (one earlier input, then the
+    // authentic file) that shows it, each member of which passes alone
+    for (size_t k = 0; k + 1 < files.size() && k < 6; k++)
+    {
+      if (files[k] == base)
+        continue;
+      std::string bo2;
+      std::vector<DV> pr = batch_dv({files[k], base}, {key}, T, chunk, (int)c.geti("refill", 0), &bo2);
+      if (!bo2.empty() && bo2.find("watchdog") == std::string::npos)
+      {
+        Verdict fl = Verdict::fail("verify/decrypt of an authentic file do not terminate normally (" + bo2 + ") when the same process has handled this input before it: " + labels[k] + " (" + std::to_string(files[k].size()) + " bytes); each of the two is handled cleanly alone [" + std::to_string(base.size()) + "-byte authentic file, T=" + std::to_string(T) + "]");
+        fl.nontrivial = true;
+        fl.classes = v.classes;
+        Case rc;
+        rc.set("kind", "file");
+        rc.setb("file", base);
+        rc.setb("warm", files[k]);
+        rc.setb("key", key);
+        rc.seti("T", T);
+        rc.seti("chunk", chunk);
+        rc.seti("refill", c.geti("refill", 0));
+        fl.replay_text = rc.text();
+        return fl;
+      }
+    }
+    v.classes.push_back("batch_only_failure_not_attributed");
+  }
   if (!warm.empty() && files.size() > 1 && res[0].evaluated && res[0].st != CH_OK)
   {
     // the authentic file did not get through normally (another property's subject): judge the rest without it
